@@ -2061,9 +2061,39 @@ def c12(rep, tier):
             src = strip_conv(a['args'][0])
         elif is_call(e, '::emplace_back') and a is not None:
             src = a
+        if src is not None and src.get('k') == 'ref' and src.get('dk') == 'var' and not any(src.get('d') == lv['d'] for lv in loopvars):
+            # push_back(det) with  auto det = MacroDetector(def);
+            o_ = mm.M.origin(gd, src)
+            o_ = strip_conv(strip_copies(strip_casts(o_))) if o_ is not None else None
+            if o_ is not None and o_.get('k') == 'construct' and o_.get('rec') == 'MacroDetector' and o_.get('args'):
+                src = strip_conv(o_['args'][0])
         if not (src is not None and src.get('k') == 'ref' and any(src.get('d') == lv['d'] for lv in loopvars)):
             okf = False
             whyf = 'a detector is pushed that was not built from the definition being visited (%s): its parse tables (and conflict verdict) come from another pattern' % show(e)[:80]
+    # a detector keeps its verdict when it is copied or moved (vectors of detectors reallocate): a hand-written copy / move constructor or assignment
+    # of MacroDetector transfers every field
+    try:
+        drec = mm.facts.record('MacroDetector')
+        fnames = [x['name'] for x in drec['fields']]
+        for f2 in mm.facts.functions:
+            if f2.get('kind') != 'ctor' or f2.get('body') is None or not f2['q'].startswith('MacroDetector::') or len(f2.get('params', [])) != 1:
+                continue
+            pt = (f2['params'][0].get('cty') or '').replace('const ', '').replace('&', '').strip()
+            if pt != 'MacroDetector':
+                continue
+            inited = set(ci.get('field') for ci in (f2.get('ctor_inits') or []) if ci.get('init') is not None and
+                         any(y.get('k') == 'ref' and y.get('d') == f2['params'][0]['d'] for y in walk_expr(ci['init'])))
+            for x in walk_all_exprs(f2['body']):
+                t_ = strip_casts(x.get('l')) if x.get('k') == 'assign' else (strip_casts(x.get('obj')) if x.get('k') == 'call' and (x.get('callee') or '').endswith('::operator=') else None)
+                if t_ is not None and t_.get('k') == 'member':
+                    inited.add(t_['name'])
+            missing = [n_ for n_ in fnames if n_ not in inited]
+            Ff.check(not missing, 'MacroDetector(%s)' % f2['params'][0].get('cty'), 'the hand-written copy/move constructor transfers every field %s' % fnames,
+                     'the hand-written copy/move constructor of MacroDetector does not transfer %s: when the vector of detectors reallocates, a detector loses its conflict list - the '
+                     'ambiguous macro is no longer reported and is applied' % missing, W(f2, None, mm.facts),
+                     witness={'macros': 'an ambiguous macro followed by another definition'} if missing else None)
+    except AnalysisBroken:
+        pass
     # ... for every definition: the push is not under a condition (no definition is skipped)
     if okf:
         ggd = mm.M.cfg(gd)
